@@ -44,7 +44,7 @@ void *set_find(struct set *set, const void *datum)
 static void dispose(struct set *set, struct set_node *n)
 {
     if (set->cleanup) { V_ASSERT(set->cleanup == module_cleanup, "harness: the module table's disposal callback"); module_cleanup(set_node_data(n)); }
-    free(n);
+    if (__CPROVER_DYNAMIC_OBJECT(n)) free(n);      /* the per-phase harnesses use file-scope module records */
 }
 void set_insert(struct set *set, struct set_node *node)
 {
@@ -82,7 +82,7 @@ struct { unsigned char ok[MODS]; } in_loadable;     /* does dlopen succeed for m
 struct log_type *log_core;
 int clean_exit;
 
-static const char *mname[4] = { "m0", "m1", "m2", "m3" };
+static const char *mname(unsigned k) { switch (k) { case 0: return "m0"; case 1: return "m1"; case 2: return "m2"; default: return "m3"; } }
 static char stub_handle[4];
 static unsigned seq;
 static unsigned ctor_begin[MODS], ctor_end[MODS], ctor_n[MODS], post_seq[MODS], post_n[MODS], dtor_seq[MODS], dtor_n[MODS];
@@ -90,8 +90,42 @@ static int closing;
 static int reach[MODS][MODS];       /* transitive closure of the dependency matrix */
 static int needed[MODS];            /* named in the configuration or pulled in by others */
 
-static int has_cycle(void) { unsigned i; for (i = 0; i < MODS; i++) if (needed[i] && reach[i][i]) return 1; return 0; }
-static int has_unloadable(void) { unsigned i; for (i = 0; i < MODS; i++) if (needed[i] && !in_loadable.ok[i]) return 1; return 0; }
+_Bool nondet_bool(void);
+/* transitive closure with every intermediate entry bound to a fresh symbol: the in-place
+ * Floyd-Warshall update on symbolic booleans yields nested expressions that the symbolic executor
+ * handles as trees (a single evaluation took a minute for 3 modules) */
+static void closure(void)
+{
+    unsigned i, j, k;
+    for (i = 0; i < MODS; i++) for (j = 0; j < MODS; j++) { _Bool b = nondet_bool(); __CPROVER_assume(b == (in_dep.d[i][j] != 0)); reach[i][j] = b; }
+    for (k = 0; k < MODS; k++) {
+        int nxt[MODS][MODS];
+        for (i = 0; i < MODS; i++) for (j = 0; j < MODS; j++) {
+            _Bool b = nondet_bool();
+            __CPROVER_assume(b == (reach[i][j] || (reach[i][k] && reach[k][j])));
+            nxt[i][j] = b;
+        }
+        for (i = 0; i < MODS; i++) for (j = 0; j < MODS; j++) reach[i][j] = nxt[i][j];
+    }
+}
+static int has_cycle_x(void) { unsigned i; for (i = 0; i < MODS; i++) if (needed[i] && reach[i][i]) return 1; return 0; }
+static int has_unloadable_x(void) { unsigned i; for (i = 0; i < MODS; i++) if (needed[i] && !in_loadable.ok[i]) return 1; return 0; }
+/* the graph facts are bound to fresh symbols once (summarise()), so that the many places that
+ * consult them do not drag the closure formula along */
+static _Bool f_cycle, f_unloadable, f_oncycle[MODS], f_needed[MODS];
+_Bool nondet_bool(void);
+static int has_cycle(void) { return f_cycle; }
+static int has_unloadable(void) { return f_unloadable; }
+static void summarise(void)
+{
+    unsigned i;
+    f_cycle = nondet_bool(); __CPROVER_assume(f_cycle == (has_cycle_x() != 0));
+    f_unloadable = nondet_bool(); __CPROVER_assume(f_unloadable == (has_unloadable_x() != 0));
+    for (i = 0; i < MODS; i++) {
+        f_oncycle[i] = nondet_bool(); __CPROVER_assume(f_oncycle[i] == (reach[i][i] != 0));
+        f_needed[i] = nondet_bool(); __CPROVER_assume(f_needed[i] == (needed[i] != 0));
+    }
+}
 
 /* ---- the loader model (S4) ---- */
 static void ctor(unsigned i)
@@ -100,7 +134,7 @@ static void ctor(unsigned i)
     ctor_n[i]++; ctor_begin[i] = ++seq;
     for (j = 0; j < MODS; j++)
         if (in_dep.d[i][j])
-            module_depends(mname[j], NULL);            /* REAL */
+            module_depends(mname(j), NULL);            /* REAL */
     ctor_end[i] = ++seq;
 }
 static void ctor0(const char *n) { (void)n; ctor(0); }
@@ -169,7 +203,7 @@ void log_message(struct log_type *type, enum log_severity sev, const char *forma
     if (sev == LOG_FATAL) {
         V_ASSERT(has_cycle() || has_unloadable(), "C20: an acyclic graph of loadable modules must not abort start-up (e.g. a module reachable along two paths is not a loop)");
         for (i = 0; i < MODS; i++)
-            if (reach[i][i]) V_ASSERT(post_n[i] == 0, "C20: start-up aborts before any member of a dependency cycle is post-initialised");
+            if (f_oncycle[i]) V_ASSERT(post_n[i] == 0, "C20: start-up aborts before any member of a dependency cycle is post-initialised");
         __CPROVER_assume(0);
     }
 }
@@ -181,15 +215,23 @@ void h_module_graph(void)
     char *names[NLIST];
     int res;
     V_IN(in_dep); V_IN(in_list); V_IN(in_loadable);
+#ifdef LIST_N
+    /* the listing is fixed per job (-DLIST_N -DLIST_0 -DLIST_1): module names stay string literals for
+     * the symbolic executor, so strlen(name) and the size of the module record are concrete */
+    in_list.n = LIST_N; in_list.m[0] = LIST_0; in_list.m[1] = LIST_1;
+#endif
     V_ASSUME(in_list.n >= 1 && in_list.n <= NLIST);
     for (i = 0; i < MODS; i++) in_dep.d[i][i] = in_dep.d[i][i];   /* self-dependency allowed: it is a cycle */
-    for (i = 0; i < NLIST; i++) { V_ASSUME(in_list.m[i] < MODS); names[i] = (char *)mname[in_list.m[i]]; }
+    for (i = 0; i < NLIST; i++) { V_ASSUME(in_list.m[i] < MODS); names[i] = (char *)mname(in_list.m[i]); }
     /* closure and the set of modules the configuration needs */
-    for (i = 0; i < MODS; i++) for (j = 0; j < MODS; j++) reach[i][j] = in_dep.d[i][j] != 0;
-    for (k = 0; k < MODS; k++) for (i = 0; i < MODS; i++) for (j = 0; j < MODS; j++) if (reach[i][k] && reach[k][j]) reach[i][j] = 1;
-    for (i = 0; i < MODS; i++) needed[i] = 0;
-    for (k = 0; k < NLIST; k++) if (k < in_list.n) { needed[in_list.m[k]] = 1; for (j = 0; j < MODS; j++) if (reach[in_list.m[k]][j]) needed[j] = 1; }
+    closure();
+    for (i = 0; i < MODS; i++) {
+        _Bool b = nondet_bool(); int nd = 0;
+        for (k = 0; k < NLIST; k++) if (k < in_list.n && (in_list.m[k] == i || reach[in_list.m[k]][i])) nd = 1;
+        __CPROVER_assume(b == (nd != 0)); needed[i] = b;
+    }
 
+    summarise();
     module_init();
     list.used = in_list.n; list.size = NLIST; list.vec = names;
     res = module_load_list(&list);                       /* REAL */
@@ -199,10 +241,10 @@ void h_module_graph(void)
     } else {
         V_ASSERT(res == 0, "C20: every acyclic graph of loadable modules starts");
         for (i = 0; i < MODS; i++) {
-            V_ASSERT(ctor_n[i] == (needed[i] ? 1u : 0u), "C20: each needed module is constructed exactly once, others not at all");
-            V_ASSERT(post_n[i] == (needed[i] ? 1u : 0u), "C20: post-init runs exactly once per module (also when reachable along two paths)");
+            V_ASSERT(ctor_n[i] == (f_needed[i] ? 1u : 0u), "C20: each needed module is constructed exactly once, others not at all");
+            V_ASSERT(post_n[i] == (f_needed[i] ? 1u : 0u), "C20: post-init runs exactly once per module (also when reachable along two paths)");
             for (j = 0; j < MODS; j++)
-                if (needed[i] && in_dep.d[i][j]) {
+                if (f_needed[i] && in_dep.d[i][j]) {
                     V_ASSERT(ctor_end[j] != 0 && ctor_end[j] < ctor_end[i], "C20: a module's dependencies are fully constructed before it finishes constructing");
                     V_ASSERT(post_seq[j] < post_seq[i], "C20: post-init runs after those of everything the module depends on");
                 }
@@ -211,11 +253,105 @@ void h_module_graph(void)
         module_close_all();                              /* REAL */
         V_ASSERT(set_size(&modules) == 0, "C20: every module is unloaded at shutdown");
         for (i = 0; i < MODS; i++) {
-            V_ASSERT(dtor_n[i] == (needed[i] ? 1u : 0u), "C20: each loaded module is destroyed exactly once");
+            V_ASSERT(dtor_n[i] == (f_needed[i] ? 1u : 0u), "C20: each loaded module is destroyed exactly once");
             for (j = 0; j < MODS; j++)
-                if (needed[i] && in_dep.d[i][j])
+                if (f_needed[i] && in_dep.d[i][j])
                     V_ASSERT(dtor_seq[i] < dtor_seq[j], "C20: a module's destructor runs before those of the modules it depends on");
         }
     }
     V_CANARY();
+}
+
+/* ---------------------------------------------------------------------------------------
+ * Per-phase obligations (the whole-run harness above is kept for the thorough tier; its symbolic
+ * execution did not finish within an hour for 3 modules).
+ *
+ * h_module_postinit: the table already holds MODS loaded modules whose `depends` vectors encode an
+ * arbitrary dependency matrix; the REAL post-initialisation phase of module_load_list (depth-first
+ * walk with loop detection, module_dfs) runs over it.
+ * h_module_unload: the table holds MODS loaded modules with depends/rdepends of an arbitrary
+ * ACYCLIC matrix; the REAL module_close_all runs.
+ */
+static struct { struct set_node n; struct module m; char name[3]; } mobj[4];
+static const char *depv[4][4], *rdepv[4][8];
+
+static void table_from_matrix(int with_rdepends)
+{
+    unsigned i, j;
+    unsigned char nondet_uchar(void);
+    /* one fresh symbol per matrix entry (reads from a havocked object are byte extractions that the
+     * symbolic executor handles very slowly) */
+    for (i = 0; i < MODS; i++) for (j = 0; j < MODS; j++) in_dep.d[i][j] = nondet_uchar() & 1;
+    closure();
+    for (i = 0; i < MODS; i++) { needed[i] = 1; in_loadable.ok[i] = 1; }
+    summarise();
+    modules.compare = set_compare_charp; modules.cleanup = module_cleanup;
+    for (i = 0; i < MODS; i++) {
+        struct module *m = &mobj[i].m;
+        mobj[i].name[0] = 'm'; mobj[i].name[1] = (char)('0' + i); mobj[i].name[2] = '\0';
+        m->name = mobj[i].name; m->handle = &stub_handle[i]; m->visited = 0; m->is_backend = 0;
+        m->depends.vec = depv[i]; m->depends.size = 4; m->depends.used = 0;
+        m->rdepends.vec = rdepv[i]; m->rdepends.size = 8; m->rdepends.used = 0;
+        slot[i] = &mobj[i].n;
+    }
+    /* compact vectors written at CONCRETE positions (position p holds the p-th set bit of the row /
+     * column): writes at a symbolic index made the symbolic executor crawl */
+    for (i = 0; i < MODS; i++) {
+        struct module *m = &mobj[i].m;
+        unsigned pos, cnt;
+        for (pos = 0; pos < MODS; pos++) {
+            const char *nm = NULL; cnt = 0;
+            for (j = 0; j < MODS; j++) if (in_dep.d[i][j]) { if (cnt == pos && !nm) nm = mname(j); cnt++; }
+            m->depends.vec[pos] = nm; m->depends.used = cnt;
+        }
+        if (with_rdepends)
+            for (pos = 0; pos < MODS; pos++) {
+                const char *nm = NULL; cnt = 0;
+                for (j = 0; j < MODS; j++) if (in_dep.d[j][i]) { if (cnt == pos && !nm) nm = mname(j); cnt++; }
+                m->rdepends.vec[pos] = nm; m->rdepends.used = cnt;
+            }
+    }
+    relink(&modules);
+}
+
+void h_module_postinit(void)
+{
+    struct string_vector list;
+    unsigned i, j; int res;
+    table_from_matrix(0);
+    list.used = 0; list.size = 0; list.vec = NULL;
+    res = module_load_list(&list);                        /* REAL: nothing to load, then the post-init walk */
+    if (has_cycle()) {
+        V_ASSERT(res != 0, "C20: a genuine dependency cycle makes start-up fail");
+    } else {
+        V_ASSERT(res == 0, "C20: every acyclic graph passes the loop detection (a module reachable along two paths is not a loop)");
+        for (i = 0; i < MODS; i++) {
+            V_ASSERT(post_n[i] == 1, "C20: post-init runs exactly once per module (also when reachable along two paths)");
+            for (j = 0; j < MODS; j++)
+                if (in_dep.d[i][j]) V_ASSERT(post_seq[j] < post_seq[i], "C20: post-init runs after those of everything the module depends on");
+        }
+    }
+    V_CANARY();
+}
+
+void h_module_unload(void)
+{
+    unsigned i, j;
+    table_from_matrix(1);
+    V_ASSUME(!has_cycle());
+    module_close_all();                                   /* REAL */
+    V_ASSERT(set_size(&modules) == 0, "C20: every module is unloaded at shutdown");
+    for (i = 0; i < MODS; i++) {
+        V_ASSERT(dtor_n[i] == 1, "C20: each loaded module is destroyed exactly once");
+        for (j = 0; j < MODS; j++)
+            if (in_dep.d[i][j]) V_ASSERT(dtor_seq[i] < dtor_seq[j], "C20: a module's destructor runs before those of the modules it depends on");
+    }
+    V_CANARY();
+}
+
+struct module *model_module_get(const char *name)
+{
+    unsigned k = key_of(name);
+    V_ASSERT(slot[k] != NULL, "harness: a named dependency exists in the table");
+    return slot[k] ? set_node_data(slot[k]) : NULL;
 }
